@@ -716,7 +716,7 @@ func init() {
 	core.Register(&core.Check{
 		ID:          "C13",
 		Level:       "model_checking",
-		Rule:        "macro definitions mm = macro(p..) { quote(T) } with T enumerated exhaustively as syntax trees over holes unquote(p), literals and identifiers; arguments from a 14-element set (literals, identifiers, operators binding looser than the template context, assignments, lambdas, side-effecting calls, i++, arrays, maps, a nested macro call, if, strings); call sites in 19 contexts incl. callee position and other macros' arguments; 1-2 uses; definition and uses in one input or split over the inputs of one session; 0..4 parameters each used 0..3 times. Reference: the harness substitutes the parenthesised argument text into its own rendering of the template. Oracle: canonical dump of State.ExpandMacros(parse(P)) equals the dump of parse(P_subst); expanding the uses a second time gives the same trees (definition unaltered); the expanded tree prints and re-parses to itself; repl.EvalOne of P and of P_subst give identical output, error presence and panic flag (so arguments are evaluated exactly as often and as late as in P_subst). Non-trivial = compared cases; distinct by definition+site+arguments.",
+		Rule:        "macro definitions mm = macro(p..) { quote(T) } with T enumerated exhaustively as syntax trees over holes unquote(p), literals and identifiers; arguments from a 14-element set (literals, identifiers, operators binding looser than the template context, assignments, lambdas, side-effecting calls, i++, arrays, maps, a nested macro call, if, strings); call sites in 19 contexts incl. callee position and other macros' arguments; 1-2 uses; definition and uses in one input or split over the inputs of one session; 0..4 parameters each used 0..3 times. Reference: the harness substitutes the parenthesised argument text into its own rendering of the template. Oracle: canonical dump of State.ExpandMacros(parse(P)) equals the dump of parse(P_subst); expanding the uses a second time gives the same trees (definition unaltered); the expanded tree prints and re-parses to itself; repl.EvalOne of P and of P_subst give identical output, error presence and panic flag (so arguments are evaluated exactly as often and as late as in P_subst). Non-trivial = compared cases; distinct by definition+site+arguments. The session histories are also driven through the repl.Grol Parse/Run API and through repl.EvalOne with token.ResetInterning() between inputs; one input defines and uses a macro at once.",
 		Assume:      []string{"canonical dump of internal/obs; textual substitution with parenthesised arguments as the reference"},
 		QuickCap:    100 * time.Second,
 		ThoroughCap: 20 * time.Minute,
